@@ -1183,6 +1183,20 @@ def call_ext(interp, dotted: str, args: List[V], kwargs: Dict[str, V], node, cc)
             lo = grid_subscript(interp, x, Term("slice", [Const(None), Num(-1), Const(None)]), node)
             return interp.binop(ast.Sub(), hi, lo, node)
         return Term("diff", args)
+    if d == "numpy.gradient" and len(args) == 1 and not kwargs:
+        g = args[0]
+        if isinstance(g, ObjV) and g.ext == "ndarray":
+            g = ndarray_value(interp, g)
+        if isinstance(g, Grid) and g.ndim == 1 and len(g.dims[0]) == 1 and isinstance(g.elem, Num):
+            ax, ext = g.dims[0][0]
+            i = Poly.atom(ax)
+            e = lambda j: subst(g.elem, {ax: j}).p
+            # numpy: one-sided differences at both ends, central differences in the interior (unit spacing)
+            pieces = [TupleV([Num(0), Num(1), Num(e(Poly.const(1)) - e(Poly.const(0)))]),
+                      TupleV([Num(1), Num(ext - 2), Num((e(i + 1) - e(i - 1)) / 2)]),
+                      TupleV([Num(ext - 1), Num(1), Num(e(ext - 1) - e(ext - 2))])]
+            return Grid(g.dims, Term("piecewise", pieces, {"idx": Num(i)}))
+        return Top("numpy.gradient of a value that is not a plain 1-D sequence")
     if d == "numpy.sort":
         return Term("sort", args, kwargs)
     if d == "numpy.unique":
